@@ -81,10 +81,17 @@ Fixpoint seqs_of (g : geom) : list seq :=
   | GMPoly ps => flat_map poly_rings ps
   | GColl gs => flat_map seqs_of gs
   end.
+(* centroids of all vertex triples (one lies inside every triangular face spanned by vertices); only for small vertex sets *)
+Fixpoint triples (l : list pt) : list hpt :=
+  match l with
+  | [] => []
+  | a :: t => map (fun bc => (fst a + fst (fst bc) + fst (snd bc), snd a + snd (fst bc) + snd (snd bc), 3)) (pairs t) ++ triples t
+  end.
 Definition witnesses (g r : geom) : list hpt :=
   let vs := nodup_pts (coords_of g ++ coords_of r) in
   map hp vs ++ map (fun ab => mid (fst ab) (snd ab)) (pairs vs)
-  ++ flat_map ear_points (seqs_of g) ++ flat_map ear_points (seqs_of r).
+  ++ flat_map ear_points (seqs_of g) ++ flat_map ear_points (seqs_of r)
+  ++ (if (length vs <=? 16)%nat then triples vs else []).
 
 (* envelope *)
 Definition env_of (l : list pt) : option (Z * Z * Z * Z) :=
@@ -101,23 +108,44 @@ Definition env_within (r g : geom) : bool :=
   | Some (a0, a1, b0, b1), Some (x0, x1, y0, y1) => (x0 <=? a0) && (a1 <=? x1) && (y0 <=? b0) && (b1 <=? y1)
   end.
 
+(* witnesses closer than the tolerance sqrt(tn/td) to the linework of either geometry are left out: the result's vertices are
+   rounded intersection points, so a witness built from them can sit within one rounding error of an input edge *)
+Definition hd2 (q : hpt) (a : pt) : Z :=          (* squared distance of q = (x, y, w) from the grid point a, times w^2 *)
+  let '(x, y, w) := q in (x - w * fst a) * (x - w * fst a) + (y - w * snd a) * (y - w * snd a).
+Definition near_seg_h (tn td : Z) (q : hpt) (s : pt * pt) : bool :=
+  let '(x, y, w) := q in
+  let a := (w * fst (fst s), w * snd (fst s)) in let b := (w * fst (snd s), w * snd (snd s)) in
+  let p := (x, y) in
+  let d2pp := fun (u v : pt) => (fst u - fst v) * (fst u - fst v) + (snd u - snd v) * (snd u - snd v) in
+  let tol := tn * w * w in
+  if pt_eqb a b then d2pp p a * td <=? tol
+  else let len2 := d2pp b a in
+       let dot := (fst p - fst a) * (fst b - fst a) + (snd p - snd a) * (snd b - snd a) in
+       if dot <=? 0 then d2pp p a * td <=? tol
+       else if len2 <=? dot then d2pp p b * td <=? tol
+       else let cr := orient a b p in cr * cr * td <=? tol * len2.
+Definition all_segments (g : geom) : list (pt * pt) := flat_map segs (seqs_of g).
+Definition clear_witnesses (tn td : Z) (g r : geom) : list hpt :=
+  let ss := all_segments g ++ all_segments r in
+  filter (fun q => negb (existsb (near_seg_h tn td q) ss)) (witnesses g r).
+
 (* ================================================================ R: the clauses *)
 Inductive method := Linework | Structure.
 Definition c_valid (r : geom) : bool := valid_geom r.
 Definition c_dim (g r : geom) : bool := dimension r <=? dimension g.
 Definition c_env (g r : geom) : bool := env_within r g.
 (* a valid input comes back with the same point set: same location of every witness *)
-Definition c_equal (g r : geom) : bool :=
-  forallb (fun q => location_eqb (loc_h g q) (loc_h r q)) (witnesses g r).
+Definition c_equal (tn td : Z) (g r : geom) : bool :=
+  forallb (fun q => location_eqb (loc_h g q) (loc_h r q)) (map hp (nodup_pts (coords_of g ++ coords_of r)) ++ clear_witnesses tn td g r).
 (* linework: no input vertex is lost *)
 Definition c_vertices (g r : geom) : bool :=
   forallb (fun v => negb (is_exterior (loc r v))) (coords_of g).
 (* structure: the area is the union of the shells minus the holes (at the witnesses that are on no ring) *)
-Definition c_area (g r : geom) : bool :=
+Definition c_area (tn td : Z) (g r : geom) : bool :=
   forallb (fun q => match area_expected g q, in_result_area r q with
                     | Some a, Some b => Bool.eqb a b
                     | _, _ => true
-                    end) (witnesses g r).
+                    end) (clear_witnesses tn td g r).
 (* structure: collapses are kept exactly when requested.  An element is collapsed when all its points are equal (lines) or
    collinear (rings, shells); kept = its vertices are on the result; not kept = the result has no part of lower dimension *)
 Definition collinear3 (a b c : pt) : bool := orient a b c =? 0.
@@ -169,9 +197,9 @@ Fixpoint check_keep_tree (keep : bool) (g r : geom) : bool :=
   | _ => c_keep keep g r
   end.
 
-Definition fix_check (m : method) (keep valid_in : bool) (g r : geom) : bool :=
-  c_valid r && c_dim g r && c_env g r && (negb valid_in || c_equal g r)
+Definition fix_check (tn td : Z) (m : method) (keep valid_in : bool) (g r : geom) : bool :=
+  c_valid r && c_dim g r && c_env g r && (negb valid_in || c_equal tn td g r)
   && match m with
      | Linework => c_vertices g r
-     | Structure => c_area g r && check_keep_tree keep g r
+     | Structure => c_area tn td g r && check_keep_tree keep g r
      end.
